@@ -212,6 +212,62 @@ def real_events(case):
     return out
 
 
+def wire_pieces(pieces):
+    out = []
+    for p in pieces:
+        if p[0] == 'T':
+            out.append([A('T'), p[1]])
+        elif p[0] == 'H':
+            out.append(A('H'))
+        elif p[0] == 'S':
+            out.append([A('S'), p[1], [[an, A('hole') if av[0] == 'hole' else [A('lit'), av[1]]] for an, av in p[2]]])
+        else:
+            out.append([A('E'), p[1]])
+    return out
+
+
+def fmt_sites(x, data, acc):
+    """positional `Markup(fmt) % (plain strings)` sites of a case: (pieces, format string, operand strings)"""
+    if isinstance(x, dict):
+        if x.get('k') == 'fmt' and x.get('tuple') and all(n in data and data[n]['k'] == 's' for n in x['args']):
+            acc.append((x['pieces'], data[x['m']]['s'], [data[n]['s'] for n in x['args']]))
+        for v in x.values():
+            fmt_sites(v, data, acc)
+    elif isinstance(x, list):
+        for v in x:
+            fmt_sites(v, data, acc)
+
+
+def compare_fmt_sites(cases, res):
+    """stream markup-format-site: the theorem's vocabulary (pieces -> format string, operator result, what
+    re-reading gives) against the real Markup operator and the generator's own skeleton of the pieces"""
+    from genshi.core import Markup
+    sites = []
+    for c in cases:
+        acc = []
+        fmt_sites(c.get('tmpl') if c['mode'] == 'template' else c.get('expr'), c['data'], acc)
+        for s in acc:
+            sites.append((c, s))
+    if not sites:
+        return
+    lines = [proto.line(A('C01'), A('fmtsite'), wire_pieces(p), list(args)) for _, (p, f, args) in sites]
+    for (c, (p, f, args)), ans in zip(sites, proto.run_lines(lines)):
+        res.streams['markup-format-site'] = res.streams.get('markup-format-site', 0) + 1
+        try:
+            real_res = str(Markup(f) % tuple(args))
+        except Exception as e:
+            real_res = Atom('raises')
+        nostrip = dict(c, strip=False)
+        exp = G.coalesce(G.Spec(nostrip).pieces_toks(p, [{'k': 's', 's': a} for a in args]))
+        model = proto.dec(ans)
+        mf, mres, mevs = model[0], model[1], model[2]
+        mtoks = reader_tokens(mevs) if isinstance(mevs, list) else mevs
+        real = [f, real_res, exp]
+        if [mf, mres, mtoks] != real:
+            res.disagreements.append({'stream': 'markup-format-site', 'case': c, 'model': repr([mf, mres, mtoks])[:700],
+                                      'real': repr(real)[:700]})
+
+
 def compare(cases, outs, res, reparse, streams=(0, 1, 2, 3)):
     lines, idx = [], []
     for i, c in enumerate(cases):
@@ -227,6 +283,8 @@ def compare(cases, outs, res, reparse, streams=(0, 1, 2, 3)):
             if j in streams:
                 lines.append(l)
                 idx.append((i, j))
+    if 0 in streams:
+        compare_fmt_sites([c for i, c in enumerate(cases) if outs[i] is not None], res)
     answers = proto.run_lines(lines)
     for (i, j), ans in zip(idx, answers):
         stream = ['render-text', 'template-events', 'reader-vs-independent-parser', 'lean-spec-vs-generator-spec'][j]
